@@ -5,6 +5,7 @@ import (
 	"github.com/hneemann/parser2/funcGen"
 	"github.com/hneemann/parser2/value"
 	"github.com/hneemann/parser2/value/export/xmlWriter"
+	"strings"
 )
 
 type xmlListExporter struct {
@@ -89,6 +90,9 @@ func (x xmlExporter) Map(m value.Map) MapExporter {
 func isSimpleMap(m value.Map) bool {
 	isSimple := true
 	m.Iter(func(key string, e value.Value) bool {
+		if !isAttrName(key) {
+			isSimple = false
+		}
 		if _, ok := e.ToMap(); ok {
 			isSimple = false
 		}
@@ -101,6 +105,18 @@ func isSimpleMap(m value.Map) bool {
 		return true
 	})
 	return isSimple
+}
+
+// isAttrName reports whether a map key can be written as an XML attribute name.
+// Other keys are exported as <entry key="..."> elements.
+func isAttrName(key string) bool {
+	for i, r := range key {
+		letter := r == '_' || r >= 'a' && r <= 'z' || r >= 'A' && r <= 'Z' || r >= 0xC0 && r <= 0xFF && r != 0xD7 && r != 0xF7
+		if !letter && (i == 0 || !(r == '-' || r == '.' || r >= '0' && r <= '9')) {
+			return false
+		}
+	}
+	return key != "" && !strings.HasPrefix(strings.ToLower(key), "xml")
 }
 
 func (x xmlExporter) Custom(value.Value) (bool, error) {
